@@ -103,6 +103,17 @@ AverageClustering(g, weighted, S, countZeros) ==
       sum == SumRats(T, LAMBDA v : cs[v])
   IN IF T = {} THEN <<0, 0>> ELSE Frac(sum[1], sum[2] * Cardinality(T))
 
+(* For larger graphs the exact mean does not fit TLC's 32-bit integers (the common denominator of
+   20 coefficients).  There the mean is judged to 7 decimals: the sum of the coefficients, each
+   truncated to 7 decimals, against the logged mean times the number of counted nodes. *)
+AverageMatchesApprox(g, weighted, S, countZeros, logged) ==
+  LET cs == Strict([v \in S |-> Clustering(g, weighted, v)])
+      T == IF countZeros THEN S ELSE {v \in S : cs[v][1] # 0}
+      k == Cardinality(T)
+      sum7 == SumOver(T, LAMBDA v : Scaled7(cs[v][1], cs[v][2]))
+      l7 == IF logged[2] = -1 THEN logged[1] * 10 ELSE IF logged[2] > 0 /\ logged[1] >= 0 THEN Scaled7(logged[1], logged[2]) ELSE -1
+  IN k = 0 \/ (l7 >= 0 /\ Abs(l7 * k - sum7) <= 8 * k)
+
 ---------------------------------------------------------------------------
 (* Judging logged answers.  A map answer is a sequence of <<name, value>>.  *)
 
@@ -140,8 +151,10 @@ ClusterChecks(g, a) ==
         IF multi THEN c.ans.e = "WrongMethod"
         ELSE IF c.weighted /\ HasNaNAt(g, Keys(g)) THEN c.ans.e = "EdgeWeightNotSpecified"
         ELSE (c.weighted => AllCubes(g)) =>
-               \A x \in {AverageClustering(g, c.weighted, Scope(g, c), c.count_zeros)} :
-                  x[2] # 0 => (c.ans.e = "" /\ RatMatches(c.ans.v, x))>>,
+               IF Cardinality(Names(g)) > 12
+                 THEN c.ans.e = "" => AverageMatchesApprox(g, c.weighted, Scope(g, c), c.count_zeros, c.ans.v)
+                 ELSE \A x \in {AverageClustering(g, c.weighted, Scope(g, c), c.count_zeros)} :
+                         x[2] # 0 => (c.ans.e = "" /\ RatMatches(c.ans.v, x))>>,
     <<"triangles", \A i \in DOMAIN a.triangles :
         LET c == a.triangles[i] IN
         IF dir \/ multi THEN c.ans.e = "WrongMethod"
